@@ -1311,6 +1311,33 @@ fn f_c16_clamp() {
 }
 h!(c16_clamp, 4, f_c16_clamp());
 
+/// The same for durations that are not whole seconds (the library API takes any Duration).
+fn f_c16_clamp_millis() {
+    // seconds 0..3 and tenths 0..9 each (no symbolic division: Duration::from_millis would need one)
+    let (is, it, ts, tt): (u8, u8, u8, u8) = (kani::any(), kani::any(), kani::any(), kani::any());
+    kani::assume(is <= 3 && ts <= 3 && it <= 9 && tt <= 9 && (is != 0 || it != 0) && (ts != 0 || tt != 0));
+    let di = core::time::Duration::new(is as u64, it as u32 * 100_000_000);
+    let dt = core::time::Duration::new(ts as u64, tt as u32 * 100_000_000);
+    let o = small_options().keepalive_interval(OptionalDuration::from_secs(1).map(|_| di)).keepalive_timeout(OptionalDuration::from_secs(1).map(|_| dt));
+    let i: Option<core::time::Duration> = o.keepalive_interval.into();
+    let t: Option<core::time::Duration> = o.keepalive_timeout.into();
+    match (i, t) {
+        (Some(i), Some(t)) => {
+            vassert!(i == di, "P:C16 the interval was changed");
+            vassert!(t >= i, "P:C16 effective keepalive timeout is shorter than the interval: a live peer that answers promptly is declared dead at the next tick");
+            if dt >= di {
+                vassert!(t == dt, "P:C16 a timeout longer than the interval was changed");
+            } else {
+                vassert!(t == i, "P:C16 a timeout shorter than the interval is not raised to exactly the interval");
+            }
+        }
+        _ => vfail!("P:C16 finite keepalive settings became infinite"),
+    }
+    kani::cover!(dt < di && ts == is, "?clamped within the same second");
+    kani::cover!(true, "clamp evaluated");
+}
+h!(c16_clamp_millis, 4, f_c16_clamp_millis());
+
 /// The third clause as stated: every ping is answered within T of ITS OWN sending time,
 /// with solver-chosen delays; the loop must then never report a timeout.
 /// (The implementation measures from the last PONG instead, so two answers that are each
